@@ -7,7 +7,7 @@ from ..astutil import dotted, effective, method_call
 from ..cfg import canon_test, cfg_of, fact_key, norm, walk_own
 from ..consteval import Scope, fold_in
 from ..mutate import B, M
-from .c03 import log_type_table_rules, toc_lookup_rules
+from .c03 import generation_switch_rules, log_type_table_rules, toc_lookup_rules
 from ..symexec import paths_of, paths_of_block
 
 PROP = 'C05'
@@ -389,6 +389,7 @@ def check(ctx):
 
     # ---- R9: table look-ups used by this subsystem (shared rule, see C03.R8) -----------------
     toc_lookup_rules(ctx, 'R9')
+    generation_switch_rules(ctx, 'R2')     # record layout and command codes: Log, LogConfig and the table fetcher switch generation at the same version (shared with C03.R5)
     log_type_table_rules(ctx, 'R11')       # size and format of every logged value: the type table against the firmware's log.h (shared with C03.R6)
 
 
